@@ -115,6 +115,14 @@ class FMMetrics(Metrics):  # pylint: disable=too-many-instance-attributes
             parent = parent.get_parent()
         return features
 
+    @staticmethod
+    def _is_grouped(feature: Feature) -> bool:
+        """A feature is grouped if the relation it is a child of is a group; a mandatory or
+        optional sibling of a group under the same parent is still a solitary feature."""
+        return feature.parent is not None and any(
+            r.is_group() and feature in r.children for r in feature.parent.get_relations()
+        )
+
     # List of methods that returns a feature
     @metric_method
     def features(self) -> dict[str, Any]:
@@ -347,7 +355,7 @@ class FMMetrics(Metrics):  # pylint: disable=too-many-instance-attributes
         _solitary_features = [
             f.name
             for f in self._features
-            if not f.is_root() and f.parent is not None and not f.parent.is_group()
+            if not f.is_root() and f.parent is not None and not self._is_grouped(f)
         ]
         result = self.construct_result(
             name=name,
@@ -367,7 +375,7 @@ class FMMetrics(Metrics):  # pylint: disable=too-many-instance-attributes
         _grouped_features = [
             f.name
             for f in self._features
-            if not f.is_root() and f.parent is not None and f.parent.is_group()
+            if not f.is_root() and f.parent is not None and self._is_grouped(f)
         ]
         result = self.construct_result(
             name=name,
